@@ -7,7 +7,7 @@ from .symexec import Contract, Unsupported
 from .stmts import Verifier
 from . import smt
 
-CONTRACT_FILES = ["asn1", "session", "messages", "filter_text"]
+CONTRACT_FILES = ["asn1", "session", "messages", "decode"]
 
 
 def load_contracts():
@@ -79,6 +79,8 @@ def verify_one(job):
         res["stats"]["symexec_s"] = round(time.time() - t0, 3)
         res["stats"]["feasibility_checks"] = v.feas_calls
         res["used_contracts"] = sorted(v.used_contracts)
+        if v.skipped_hints:
+            res["stats"]["skipped_hints"] = sorted(v.skipped_hints)
         axioms = v.global_axioms()
         timeout = int(os.environ.get("PYVC_TIMEOUT_MS", 0)) or c.timeout or job.get("timeout_ms", 20000)
         from .symexec import Obligation
